@@ -737,7 +737,23 @@ class Summarizer:
             if kind.startswith('FloatToFloat'):
                 return [(st, op('f2f', a))]
             if kind.startswith('IntToInt'):
-                if rv['from'].get('k') == rv['to'].get('k') or a[0] == 'int':
+                fk, tk = rv['from'].get('k'), rv['to'].get('k')
+                if fk == tk:
+                    return [(st, a)]
+                fb, tb = INT_BITS.get(fk), INT_BITS.get(tk)
+                if fb and tb:
+                    fs, ts = fk.startswith('i'), tk.startswith('i')
+                    lossless = (fs == ts and tb >= fb) or (not fs and ts and tb > fb)
+                    if a[0] == 'int':
+                        v = a[1] & ((1 << tb) - 1)
+                        if ts and v >= 1 << (tb - 1):
+                            v -= 1 << tb
+                        return [(st, T.mk_int(v))]
+                    if lossless:
+                        return [(st, op('i2i', a))]
+                    # a narrowing or sign-changing `as` cast wraps: not the identity on the integers
+                    return [(st, op('wrap_int', a, ('str', tk)))]
+                if a[0] == 'int':
                     return [(st, a)]
                 return [(st, op('i2i', a))]
             if kind.startswith('PointerCoercion') or kind.startswith('PtrToPtr') or kind.startswith('Transmute'):
